@@ -3,6 +3,8 @@ package main
 // `govc check` / `govc claim`: property-level driver, claimed-set bookkeeping, evidence, violation reporting.
 
 import (
+	"go/ast"
+	"go/types"
 	"os/exec"
 	"encoding/json"
 	"flag"
@@ -285,6 +287,29 @@ func runPropertyFiltered(eng *Engine, prop string, opts solveOpts, only map[stri
 			pr.clauses[name] = &clauseStatus{Name: name, Func: fr.Key, Instances: 1, Discharged: 1, Kind: "verifiable"}
 			pr.order = append(pr.order, name)
 		}
+	}
+	// structural censuses serving the property
+	for _, cs := range eng.specs.Census {
+		if cs.Prop != prop || (opts.funcFilter != nil && !opts.funcFilter["census:"+cs.Kind]) {
+			continue
+		}
+		name := "census:" + cs.Kind
+		found := eng.censusOf(cs.Kind)
+		var extra []string
+		for _, f := range found {
+			if !cs.Allowed[f] {
+				extra = append(extra, f)
+			}
+		}
+		st := &clauseStatus{Name: name, Func: "package", Instances: 1, Kind: "census", Src: cs.Src}
+		if len(extra) == 0 {
+			st.Discharged = 1
+		} else {
+			st.Worst = &Obligation{Name: name, Clause: name, Kind: "census", Func: "package", Result: "error",
+				Output: "range-over-map loop(s) in function(s) that the census does not list (order independence not shown): " + strings.Join(extra, ", ")}
+		}
+		pr.clauses[name] = st
+		pr.order = append(pr.order, name)
 	}
 	// lemmas serving the property
 	for _, lm := range eng.specs.Lemmas {
@@ -869,6 +894,35 @@ func cmdMutcheck(args []string) {
 func keysOfStr(m map[string]string) []string {
 	var out []string
 	for k := range m {
+		out = append(out, k)
+	}
+	sort.Strings(out)
+	return out
+}
+
+// censusOf lists the functions (keys as in contracts; closures are attributed to their enclosing function) of the package's
+// non-test files that contain a construct of the given kind. Kinds: map-range.
+func (e *Engine) censusOf(kind string) []string {
+	seen := map[string]bool{}
+	for key, fi := range e.funcs {
+		if strings.Contains(key, "#") || fi.Body == nil {
+			continue
+		}
+		ast.Inspect(fi.Body, func(n ast.Node) bool {
+			rs, ok := n.(*ast.RangeStmt)
+			if !ok || kind != "map-range" {
+				return true
+			}
+			if t := e.info.TypeOf(rs.X); t != nil {
+				if _, isMap := t.Underlying().(*types.Map); isMap {
+					seen[key] = true
+				}
+			}
+			return true
+		})
+	}
+	var out []string
+	for k := range seen {
 		out = append(out, k)
 	}
 	sort.Strings(out)
